@@ -68,8 +68,9 @@ def parsePatterns (dec : Bytes → String) : List (Nat × CExpr) → CRes (List 
     (parseStringArg a).bind fun s => (parsePatterns dec as).bind fun ps => .ok (⟨l, dec s⟩ :: ps)
 
 /-- `convertRuleExpr` after the chain walk, with the rule it appends to the group as `Loader.Rule`
-(the rule's `WhereExpr` through `toFE`) -/
-def convertRuleG (ar : Bool) (dec : Bytes → String) (c : Chain) : CRes Loader.Rule :=
+(the rule's `WhereExpr` through `toFE`).  `conv` = `convertFilterExpr` as the group sees it (with the
+group's local helpers: `Rg/Model/SrcGroup.lean`; without any: `convertRuleG`). -/
+def convertRuleW (conv : CExpr → CRes IR.FilterExpr) (ar : Bool) (dec : Bytes → String) (c : Chain) : CRes Loader.Rule :=
   if c.matchArgs.isNone && c.matchCommentArgs.isNone then .err else    -- "missing Match() or MatchComment() call"
   (parsePatterns dec (match c.matchArgs with | some as => as | none => c.matchCommentArgs.getD [])).bind fun alts =>
   -- At()
@@ -82,7 +83,7 @@ def convertRuleG (ar : Bool) (dec : Bytes → String) (c : Chain) : CRes Loader.
   -- Where()
   (match c.whereArgs with
    | none => CRes.ok IR.FilterExpr.zero
-   | some as => (chainArg0 ar as).bind fun a => convertG ar a).bind fun wh =>
+   | some as => (chainArg0 ar as).bind fun a => conv a).bind fun wh =>
   -- Suggest()
   (match c.suggestArgs with
    | none => CRes.ok ""
@@ -105,6 +106,10 @@ def convertRuleG (ar : Bool) (dec : Bytes → String) (c : Chain) : CRes Loader.
         commentPatterns := if c.matchArgs.isSome then [] else alts,
         reportTemplate := dr.2, suggestTemplate := sugg, doFuncName := dr.1,
         whereExpr := toFE dec wh, locationVar := loc }
+
+/-- … in a group without local helpers -/
+def convertRuleG (ar : Bool) (dec : Bytes → String) (c : Chain) : CRes Loader.Rule :=
+  convertRuleW (convertG noHook ar) ar dec c
 
 /-- a rule group: its name and the chains of its call statements -/
 structure SrcGroup where
